@@ -402,7 +402,17 @@ impl<'b, 'a> FnCtx<'b, 'a> {
             let last = i + 1 == n;
             match s {
                 Stmt::Local(l) => self.local(l)?,
-                Stmt::Item(_) => return Err("items inside function bodies are not supported".into()),
+                // a function-local `const NAME: T = <expr>;` is an immutable binding of that type
+                Stmt::Item(syn::Item::Const(c)) => {
+                    let name = c.ident.to_string();
+                    let ty = convert_type(self.m, &c.ty, &self.generics, self.self_ty.as_deref())?;
+                    let v = self.expr_mode(&c.expr, Some(&ty), true)?;
+                    self.inf.unify(&ty, &v.ty).map_err(|e| format!("const {}: {}", name, e))?;
+                    let lean = self.declare(&name, ty.clone(), false);
+                    let lt = self.lty(&ty);
+                    self.emit(format!("let {} : {} := {}", lean, lt, v.code));
+                }
+                Stmt::Item(_) => return Err("items inside function bodies are not supported (only `const`)".into()),
                 Stmt::Macro(sm) => {
                     let v = self.macro_call(&sm.mac, None)?;
                     if v.ty == Ty::Never {
@@ -539,8 +549,16 @@ impl<'b, 'a> FnCtx<'b, 'a> {
     }
 
     fn if_expr(&mut self, i: &syn::ExprIf, exp: Option<&Ty>, want_value: bool) -> R<Val> {
-        if let Expr::Let(_) = &*i.cond {
-            return Err("`if let` is not supported".into());
+        if let Expr::Let(l) = &*i.cond {
+            // `if let PAT = e { A } else { B }`  is  `match e { PAT => A, _ => B }`
+            let pat = &*l.pat;
+            let scrut = &*l.expr;
+            let then = &i.then_branch;
+            let m: syn::ExprMatch = match &i.else_branch {
+                Some((_, e)) => syn::parse_quote!(match #scrut { #pat => #then, _ => #e }),
+                None => syn::parse_quote!(match #scrut { #pat => #then, _ => {} }),
+            };
+            return self.match_expr(&m.expr, &m.arms, exp, want_value);
         }
         let c = self.expr(&i.cond, Some(&Ty::Bool))?;
         self.inf.unify(&c.ty, &Ty::Bool).map_err(|e| format!("if condition: {}", e))?;
